@@ -695,7 +695,13 @@ func New() Beacon {
 func (b *beacon) GetAll() map[string]treasure.Treasure {
 	b.mu.RLock()
 	defer b.mu.RUnlock()
-	return b.treasuresByKeys
+	// hand out a snapshot: callers iterate the result without holding b.mu, and iterating the live map
+	// while Add/Delete write it is a fatal "concurrent map iteration and map write"
+	snapshot := make(map[string]treasure.Treasure, len(b.treasuresByKeys))
+	for key, value := range b.treasuresByKeys {
+		snapshot[key] = value
+	}
+	return snapshot
 }
 
 type IterationType int
